@@ -79,6 +79,12 @@ def gen_slot(rng, fault=0.0, hostile=False, excs=None, debug=None, prefix='', nv
             n += 1
         if n:
             slot['listeners'][ev] = [gen_listener_script(rng, ev, fault, hostile, excs) for _ in range(n)]
+    # a callback that translates one shared error into another (`raise a from b`) gets a sibling translating back
+    flavours = set(a['e'] for sc_ in list(slot['functions'].values()) + [x for ls in slot['listeners'].values() for x in ls]
+                   for a in sc_ if a['a'] == 'raise' and a['e'].startswith('XLFROM:'))
+    for k, fl in enumerate(sorted(flavours)):
+        a_, b_ = fl[7:].split('|')
+        slot['functions']['%sFREV%d' % (prefix, k)] = [{'a': 'raise', 'e': 'XLFROM:%s|%s' % (b_, a_)}]
     return slot
 
 
